@@ -46,7 +46,7 @@ def parse_line(line):
         f = ent.split()
         if f[0] == "S":
             log.append(("S", unhex(f[1]), unhex(f[2]), unhex(f[3]), f[4] == "1", unhex(f[5]), unhex(f[6])))
-        else:
+        elif f[0] == "O":
             log.append(("O", unhex(f[1]), unhex(f[2]), unhex(f[3]), unhex(f[4]), f[5] == "1", unhex(f[6])))
     return a, b, log
 
@@ -231,7 +231,7 @@ def run(ctx):
             return
     T = ctx.thorough
     # phase 1: seal
-    scases = seal_cases(ctx, 400 if T else 60)
+    scases = seal_cases(ctx, 240 if T else 60)
     consts, sres = run_harness(ctx, bins["dev"], scases)
     if sres is None:
         return
@@ -244,16 +244,16 @@ def run(ctx):
             wire = a["buf"][:len(c.data) + overhead]
             truths.append((c.key, c.nonce, c.label, c.seq0, c.data, wire))
     ocases = []
-    full = 12 if T else 3
+    full = 8 if T else 3
     ctx.rng.shuffle(truths)
     for i, t in enumerate(truths):
         want = {"foreign"}
-        if i < full or (T and len(t[5]) <= 40):
+        if i < full or (T and len(t[5]) <= 32):
             want |= {"trunc", "mut"}
         elif i < 4 * full:
             want |= {"mut"} if i % 2 else {"trunc"}
         ocases += open_variants(ctx, t, want, T)
-    ocases += random_open_cases(ctx, 1500 if T else 150)
+    ocases += random_open_cases(ctx, 800 if T else 150)
     allcases = scases + ocases
     results = {}
     for prof in ("dev", "nodebug"):
